@@ -483,7 +483,13 @@ fn run(ctx: &Ctx, env: &Env) -> Stats {
     jobs.push(Box::new(move |ctx: &Ctx| {
         let mut part = Part::new(ctx, "iterator/extreme_values", "step functions whose values end at usize::MAX (constant, one step, several steps)", true);
         let f = |c: &Case| check_case(c, env);
-        for steps in [vec![], vec![1u64], vec![2], vec![65535], vec![1 << 40], vec![3, 1 << 62], vec![1 << 63], vec![5, 6, 7, (1 << 63) + 9]] {
+        // the chain 2^64 - 2^k (k = 63..=1) walks the search right up to u64::MAX - 1, with and without a last step at u64::MAX
+        let chain: Vec<u64> = (1..=63u32).rev().map(|k| (u64::MAX - (1u64 << k)) + 1).collect();
+        let mut chain_top = chain.clone();
+        chain_top.push(u64::MAX);
+        let mut tail_chain: Vec<u64> = (1..=20u32).rev().map(|k| (u64::MAX - (1u64 << k)) + 1).collect();
+        tail_chain.push(u64::MAX);
+        for steps in [vec![], vec![1u64], vec![2], vec![65535], vec![1 << 40], vec![3, 1 << 62], vec![1 << 63], vec![5, 6, 7, (1 << 63) + 9], chain, chain_top, tail_chain, vec![u64::MAX - 1], vec![u64::MAX - 1, u64::MAX], vec![u64::MAX]] {
             for top in [true, false] {
                 part.check(&Case::IterSynth { base: 0, steps: steps.clone(), top }, &f);
             }
